@@ -26,7 +26,15 @@ def _load_inventory():
     if os.environ.get("SA_NO_INLINE") == "1" or not os.path.exists(_INVENTORY):
         return None
     with open(_INVENTORY, "r", encoding="utf-8") as fh:
-        return json.load(fh)["functions"]
+        d = json.load(fh)
+    global _INVENTORY_LOCALS, _INVENTORY_SHAPES
+    _INVENTORY_LOCALS = d.get("locals", {})
+    _INVENTORY_SHAPES = d.get("bindings", {})
+    return d["functions"]
+
+
+_INVENTORY_LOCALS: dict = {}
+_INVENTORY_SHAPES: dict = {}
 
 
 class AnalysisError(Exception):
@@ -196,6 +204,20 @@ class Project:
                             elif isinstance(n, ast.Attribute):
                                 elsewhere.add(n.attr)
                 self.inlined[rel]["removed"] = remove_unreferenced(tree2, expanded, elsewhere)
+            # alias normal form (engine/alias.py): new locals that only name a pure expression are replaced by it
+            from .alias import substitute_new_aliases
+
+            for rel, src, tree in parsed:
+                ref = _INVENTORY_LOCALS.get(rel)
+                if not ref:
+                    continue
+                for st in tree.body:
+                    hosts = [(st.name, st)] if isinstance(st, (ast.FunctionDef, ast.AsyncFunctionDef)) else [(f"{st.name}.{x.name}", x) for x in st.body if isinstance(x, (ast.FunctionDef, ast.AsyncFunctionDef))] if isinstance(st, ast.ClassDef) else []
+                    for q, fn in hosts:
+                        if q in ref:
+                            names = substitute_new_aliases(fn, set(ref[q]), set(_INVENTORY_SHAPES.get(rel, {}).get(q, [])))
+                            if names:
+                                self.inlined.setdefault(rel, {}).setdefault("aliases", {})[q] = names
         for rel, src, tree in parsed:
             tree = canonicalise(tree)
             modname = rel[:-3].replace("/", ".")
@@ -573,6 +595,16 @@ class _Canon(ast.NodeTransformer):
                 out.append(st)
         return out
 
+    @staticmethod
+    def _append_form(body):
+        """`xs.extend([e])` (a one-element list display)  ->  `xs.append(e)`"""
+        for st in body:
+            if isinstance(st, ast.Expr) and isinstance(st.value, ast.Call) and isinstance(st.value.func, ast.Attribute) and st.value.func.attr == "extend" and len(st.value.args) == 1 and not st.value.keywords \
+                    and isinstance(st.value.args[0], ast.List) and len(st.value.args[0].elts) == 1 and not isinstance(st.value.args[0].elts[0], ast.Starred):
+                st.value.func.attr = "append"
+                st.value.args = [st.value.args[0].elts[0]]
+        return body
+
     def _canon_fn(self, node):
         cnt = self._blocked(node)
         for sub in ast.walk(node):
@@ -581,7 +613,7 @@ class _Canon(ast.NodeTransformer):
             for f in ("body", "orelse", "finalbody"):
                 b = getattr(sub, f, None)
                 if isinstance(b, list) and b and isinstance(b[0], ast.stmt):
-                    setattr(sub, f, self._fold_body(self._join_branches(self._hoist_else(b)), cnt))
+                    setattr(sub, f, self._fold_body(self._join_branches(self._hoist_else(self._append_form(b))), cnt))
             if isinstance(sub, ast.Try):
                 for h in sub.handlers:
                     h.body = self._fold_body(self._join_branches(self._hoist_else(h.body)), cnt)
